@@ -56,6 +56,7 @@ def programs(tier, pid):
                 init={"a.txt": 0, "x1.x": 0, "sub/y.x": 9, ".h.x": 0})
     P8 = mkprog("P8", [T("M", lit=["a.txt"], glob=["*.txt"], cand=["a.txt", "b.txt"]), T("N")], ["a.txt", "b.txt"],
                 init={"a.txt": 0, "b.txt": 9})          # the same file named twice (literally and by the glob)
+    P9 = mkprog("P9", [T("A", lit=["a.txt"]), T("B", lit=["a.txt", "b.txt"], deps=["A"])], ["a.txt", "b.txt"])   # a shared file and one of its own
     P7 = mkprog("P7", [T("A", lit=["a.txt"]), T("B", lit=["b.txt"]), T("D", lit=["a.txt", "b.txt"], deps=["A", "B"])], ["a.txt", "b.txt"])
     if pid == "C10":
         # kill points multiply the alphabet: smaller programs
@@ -73,11 +74,11 @@ def programs(tier, pid):
             p["failsets"] = [[]] + [[n] for n in names]
         return ps
     if tier == "quick":
-        ps = [P1, P5, P4] if pid == "C14" else [P1, P3, P4, P2, P8]
+        ps = [P1, P5, P4] if pid == "C14" else [P1, P3, P4, P2, P8, P9]
     else:
         for p in (P1, P3, P5, P7):
             p["ncontents"] = 3
-        ps = [P1, P2, P3, P4, P5, P6, P7, P8]
+        ps = [P1, P2, P3, P4, P5, P6, P7, P8, P9]
         for p in ps:
             p["reps"] = 4
     return ps
